@@ -34,7 +34,7 @@ CHECKS = {
    text="Exploration: 15 ParJoin shapes (incl. nested optional groups) x generated membership, plus joins without a positive member over all 2^24 indices; the multiset of delivered items must equal the sequential join, and every mutable component of the intersection must be written exactly once. The partition of the index space is a generated input (split-tree hook), rayon's run-time stealing is sampled on pools up to 256 threads.",
    note="rayon scheduling sampled; split decisions owned via cfg(specs_verif) hook verif_par_join_split_tree"),
  "C08": dict(design="4/C08", technique="ledger invariant (serial + canary per component value) over generated storage sequences, world histories and change sets",
-   text="Exploration: every component value is instrumented; after each step and after dropping the world no value may be destroyed twice, exposed after destruction or leaked. Three generators: single-storage sequences on all kinds, world histories with builders / lazy updates / all deletion paths, change sets.",
+   text="Exploration: every component value is instrumented; after each step and after dropping the world no value may be destroyed twice, exposed after destruction, destroyed while still attached to a live entity, or leaked. Three generators: single-storage sequences on all kinds, world histories with builders / lazy updates / all deletion paths, change sets.",
    note="the ledger sees only values of the harness's component types; zero-sized components are counted, not individually tracked"),
  "C12": dict(design="4/C12", technique="model-based property testing of the event stream of FlaggedStorage / DerefFlaggedStorage, two feature builds",
    text="Exploration: after every operation of generated sequences the events read by a pre-registered reader must be exactly the model's insertions/removals, with Modified required exactly where mutable access was handed out (Flagged) or dereferenced (DerefFlagged); run against builds with and without storage-event-control.",
@@ -66,7 +66,7 @@ CHECKS = {
    note="teardown destructor order and UuidMarker::new_random excluded by design"),
 
  "C18": dict(design="4/C18", technique="generated-program property testing: a grammar of type definitions is printed as a crate with hand-expanded reference conversions, compiled against the working tree's specs-derive, run, and judged per type",
-   text="Exploration over programs: generated struct / enum shapes (named, tuple, nested, generic with inline or where-clause bounds, skip attributes, variant-level forwarded attributes, up to 13 fields) and Component declarations; each type's derived conversion is compared value by value with an independently generated field-wise reference (JSON equality, permuted round trip through JSON and directly), each derived Component's Storage TypeId with the requested one.",
+   text="Exploration over programs: generated struct / enum shapes (named, tuple, nested, generic with inline or where-clause bounds, skip attributes, variant-level forwarded attributes, a field named `ids`, types defined through macro_rules! fragments, up to 13 fields) and Component declarations; each type's derived conversion is compared value by value with an independently generated field-wise reference (JSON equality, permuted round trip through JSON and directly), each derived Component's Storage TypeId with the requested one.",
    note="grammar restricted to shapes the derive supports (at least one converted field per type; no Entity inside tuples/arrays/Option); needs cargo at check time (offline)"),
 }
 
